@@ -73,6 +73,22 @@ type faultStringWriter struct{ *faultWriter }
 
 func (w faultStringWriter) WriteString(s string) (int, error) { return w.do(s, true) }
 
+// flushingWriter: a destination that also has Flush() error (like *bufio.Writer); flushing succeeds.
+type flushingWriter struct {
+	*faultWriter
+	flushes *int
+}
+
+func (w flushingWriter) WriteString(s string) (int, error) { return w.do(s, true) }
+func (w flushingWriter) Flush() error                      { *w.flushes++; return nil }
+
+// flushingBuffer: bytes.Buffer + Flush() error + Close() error + Sync() error, all succeeding.
+type flushingBuffer struct{ bytes.Buffer }
+
+func (b *flushingBuffer) Flush() error { return nil }
+func (b *flushingBuffer) Close() error { return nil }
+func (b *flushingBuffer) Sync() error  { return nil }
+
 func writeClass(s string) string {
 	switch {
 	case strings.HasPrefix(s, "<!--"):
@@ -204,11 +220,17 @@ func runC16(ctx *core.Ctx) {
 		for k := 0; k < W; k++ {
 			cls := writeClass(ref.events[k].data)
 			for mode := 0; mode < 4; mode++ {
-				for kind := 0; kind < 2; kind++ {
+				for kind := 0; kind < 3; kind++ {
 					fw := &faultWriter{failAt: k, mode: mode}
 					var w io.Writer = fw
 					if kind == 0 {
 						w = faultStringWriter{fw}
+					}
+					if kind == 2 {
+						if (k+mode)%3 != 0 { // a third of the faults also through a destination that can be flushed
+							continue
+						}
+						w = flushingWriter{fw, new(int)}
 					}
 					err := env.Pol.SanitizeReaderToWriter(strings.NewReader(in), w)
 					cs.Eval()
@@ -244,10 +266,18 @@ func runC16(ctx *core.Ctx) {
 				if v&2 != 0 {
 					fr.chunk = 1 + cs.R.Intn(7)
 				}
-				var buf bytes.Buffer
-				// the failing source is offered through reader types with extra methods (Len, WriteTo, ReadByte ...)
+				var buf flushingBuffer
+				// the failing source is offered through reader types with extra methods (Len, WriteTo, ReadByte ...),
+				// the destination through writer types with and without WriteString / Flush / Close / Sync
 				kind := (o + v/2 + cs.Index) % len(readerKindNames)
-				err := env.Pol.SanitizeReaderToWriter(wrapReader(fr, kind, func() int { return len(fr.data) - fr.pos }), &buf)
+				var dst io.Writer = &buf
+				switch (o + v) % 3 {
+				case 1:
+					dst = &buf.Buffer
+				case 2:
+					dst = plainWriter{&buf.Buffer}
+				}
+				err := env.Pol.SanitizeReaderToWriter(wrapReader(fr, kind, func() int { return len(fr.data) - fr.pos }), dst)
 				cs.Eval()
 				lc["reader_faults_injected"]++
 				lc["reader_fault_source_kind:"+readerKindNames[kind]]++
@@ -295,6 +325,75 @@ func runC16(ctx *core.Ctx) {
 		}
 		cs.Flush(lc)
 	})
+	// real *os.File destinations that cannot be written: /dev/full, a closed file, a file opened read-only,
+	// a pipe whose reading end is gone
+	ctx.Run("os-file-destinations", ctx.N(200, 2000), func(cs *core.Case) {
+		env := NewEnv(pols[cs.Index%len(pols)])
+		in := c16Input(cs, env)
+		if cs.Index%7 == 0 { // more than any 4 KiB / 64 KiB buffer would hold back
+			var b strings.Builder
+			for b.Len() < 70000 {
+				b.WriteString(c16Input(cs, env))
+			}
+			in = b.String()
+		}
+		var ref bytes.Buffer
+		if err := env.Pol.SanitizeReaderToWriter(strings.NewReader(in), &ref); err != nil || ref.Len() == 0 {
+			return
+		}
+		lc := core.LocalCounts{}
+		dests := map[string]func() (*os.File, func()){
+			"dev-full": func() (*os.File, func()) {
+				f, err := os.OpenFile("/dev/full", os.O_WRONLY, 0)
+				if err != nil {
+					return nil, nil
+				}
+				return f, func() { f.Close() }
+			},
+			"closed-file": func() (*os.File, func()) {
+				f, err := os.CreateTemp("", "vmon-c16-*")
+				if err != nil {
+					return nil, nil
+				}
+				name := f.Name()
+				f.Close()
+				return f, func() { os.Remove(name) }
+			},
+			"read-only-file": func() (*os.File, func()) {
+				f, err := os.Open("/dev/null")
+				if err != nil {
+					return nil, nil
+				}
+				return f, func() { f.Close() }
+			},
+			"pipe-without-reader": func() (*os.File, func()) {
+				pr, pw, err := os.Pipe()
+				if err != nil {
+					return nil, nil
+				}
+				pr.Close()
+				return pw, func() { pw.Close() }
+			},
+		}
+		for _, name := range []string{"dev-full", "closed-file", "read-only-file", "pipe-without-reader"} {
+			f, done := dests[name]()
+			if f == nil {
+				lc["os_file_destination_unavailable:"+name]++
+				continue
+			}
+			err := env.Pol.SanitizeReaderToWriter(strings.NewReader(in), f)
+			done()
+			cs.Eval()
+			lc["os_file_destination_faults"]++
+			if err == nil {
+				cs.Violate("C16:nil-error:os-file:"+name, fmt.Sprintf("the destination (*os.File, %s) cannot be written, %d bytes of output were due, but SanitizeReaderToWriter returned nil; input=%q", name, ref.Len(), core.Clip(in, 200)),
+					map[string]interface{}{"policy": spec.Describe(env.Ops), "ops": env.Ops, "input": core.Show(core.Clip(in, 3000)), "destination": name, "output_bytes_due": ref.Len()})
+			}
+		}
+		cs.Nontrivial(core.Hash("osfile", fmt.Sprint(cs.Index), in))
+		cs.Flush(lc)
+	})
+	ctx.Floor("os_file_destination_faults", 400)
 	// giant tokens: single writes of 33 KiB - 300 KiB (a writer wrapper that splits or buffers large
 	// writes has its own failure handling); writer faults at every write index, per writer kind
 	ctx.Run("giant-token-write-faults", ctx.N(48, 480), func(cs *core.Case) {
